@@ -5,7 +5,7 @@
 (* of Envs with Clvm!Eval and printed as one JSON vector, which the harness  *)
 (* replays through the real stepping evaluator, the real CLVM-level          *)
 (* optimiser and the consensus evaluator (C04, C06, C12).                    *)
-EXTENDS ClvmStepper, Json, TLC, FiniteSets
+EXTENDS Cldb, Json, TLC, FiniteSets
 CONSTANTS MaxLen, Profile, EnvSet
 
 \* tokens: <<"leaf", value>> | <<"q", value>> | <<"op", opcode bytes, arity>>
@@ -56,6 +56,9 @@ Emit == /\ need = 0 /\ ~emitted /\ emitted' = TRUE /\ UNCHANGED <<seq, need>>
               \* model-level counterexample ("D" line) where the deviation is known
               /\ (EnvSet = "clean" => Assert(Agrees(term, e, "int"), <<"stepper disagrees", term, e, r, st>>))
               /\ (~Agrees(term, e, "int") => PrintT(<<"D", ToJson([prog |-> term, env |-> e, res |-> r, step |-> st])>>))
+              \* C12 on the model: the debugger's final row is the big-step result; every row that pairs an operator
+              \* other than apply with a value is true of the semantics (apply rows are the known deviation)
+              /\ (Profile = "stepper" /\ EnvSet = "clean" => Assert(FinalOk(term, e) /\ OnlyApplyRowsFalse(term, e), <<"debugger model", term, e, Trace(term, e)>>))
               /\ PrintT(<<"V", ToJson([prog |-> term, env |-> e, res |-> r, step |-> st])>>)
 Next == (\E t \in Toks : Add(t)) \/ Emit
 Spec == Init /\ [][Next]_vars
